@@ -24,7 +24,7 @@ PROPS = {
         "clauses_explored": [],
         "level_text": "Every clause of the property is a kernel-checked theorem about the model, for all widths, pairs, sample sequences and (start, step, n); the model is tied to the crate by correspondence on 3.6e5 op lines per run and by a native oracle that is exhaustive for i8 (and i16 in the thorough tier).",
         "level_note": "Model: overflowingSub, unwrapperUpdate, accuNext (IdspModel/Model/Unwrap.lean). Unwrapper::wraps (unwrapperWraps) is tied through a phase-word newtype (harness/src/pword.rs: P32 wraps i32 and implements the BitAnd<u32> + Signed + WrappingAdd bounds no primitive satisfies) with S in {1,2,16,31,32} on rounding-boundary states; Unwrapper::phase = unwrapperPhase. Not modelled: serde derives.",
-        "rule": "osub: all i8 pairs (and all i16 pairs in thorough), lattice/random i32/i64; Unwrapper: random walks with forced wraps, each sequence distinct; Accu: (start, step, n) triples",
+        "rule": "osub: all i8 pairs (and all i16 pairs in thorough), lattice/random i32/i64; Unwrapper: random walks with forced wraps, each sequence distinct; Unwrapper::wraps::<P32, S> for S in {1,2,16,31,32} on rounding-boundary / extreme / random states; Accu: (start, step, n) triples",
     },
 }
 
